@@ -3,12 +3,14 @@ from ..core import Query
 
 META = {
     "level": "model_checking",
-    "functions": ["ringbuf_put", "ringbuf_get", "ringbuf_empty (ring buffer pattern)", "messageq_claim/send/receive/release (message queue pattern; the interrupt-context fibre wake-up "
-                  "and event delivery use exactly this code on a queue of pointers / events)"],
-    "units": ["librfn/ringbuf.c and librfn/messageq.c via clang-14 LLVM IR at -O1 and -O2 (the memory order and atomicity of every access are read off the IR instruction)"],
+    "functions": ["ringbuf_put", "ringbuf_get", "ringbuf_empty (ring buffer pattern only - see outside_the_bounds for the message-queue and fibre patterns)"],
+    "units": ["librfn/ringbuf.c via clang-14 LLVM IR at -O1 and -O2 (the memory order and atomicity of every access are read off the IR instruction)"],
     "bounds": {"quick": "the C05 executions (1 put + 1 get, length 2..3, every start index and byte value, free preemption) at -O1 with the vector-clock happens-before monitor on every shared access",
                "thorough": "additionally 1 + 2 and 2 + 1 operations and the -O2 IR"},
-    "outside": ["executions that are not sequentially consistent: on the current tree every atomic is seq_cst, so race-freedom of all SC interleavings gives (C11 DRF-SC) that all "
+    "outside": ["THE MESSAGE-QUEUE PATTERN AND THE FIBRE WAKE-UP / EVENT PATTERN (both run on messageq.c) ARE NOT DECIDED BY ANY REGISTERED QUERY: the monitor over the C04 step "
+                "machines gave no verdict within reach (1 sender + receiver, depth 1, whole handlers in every order: > 12 min and 7.5 GB without a verdict; 2 senders or 2 messages: "
+                "out of memory at 10-12 GB). A weakened memory order in messageq.c (seed C07b: relaxed fetch_or in messageq_send) is therefore NOT reported by this check",
+                "executions that are not sequentially consistent: on the current tree every atomic is seq_cst, so race-freedom of all SC interleavings gives (C11 DRF-SC) that all "
                 "executions of the bounded scenarios are SC and race-free; after a weakening mutation the check is a bug-finder over SC interleavings with happens-before from the actual orders",
                 "long randomised real-thread runs under ThreadSanitizer (dynamic sampling - not part of this technique family, not done)",
                 "the -O0 IR (no inlining at -O0, so the agents are not call-free)", "thread fences (none in the sources; compiler-only fences are ignored as they must be)"],
